@@ -173,6 +173,7 @@ func CoreLoop(ds DataSource, queuedRequests chan func()) {
 	nextBlock := ds.getNextBlock()
 
 	for {
+		verifPoint("coreloop:select")
 		// Use select to interleave 2 activities that should NOT be done concurrently:
 		// 1. Handle RPC requests to change data processing parameters (e.g. trigger).
 		// 2. Handle new data and process it.
